@@ -71,6 +71,16 @@ type dataGen struct {
 	pFail  int // percent of function-field results that fail
 	d      *Data
 	done   map[string][]*Obj // finished objects by type: reused now and then, so that one object is reached twice
+	wide   map[string]int    // "Type.field" -> number of elements of that list field (wide fan-out)
+}
+
+// GenDataWide is GenData with the list result of Type.field (e.g. "Query.r0") made n elements long; the
+// elements are small objects (a few levels below each).
+func GenDataWide(r *vh.Rng, spec *SchemaSpec, pFail int, field string, n int) *Data {
+	g := &dataGen{r: r, spec: spec, budget: 20, pFail: pFail, d: &Data{ByOid: map[int64]*Obj{}}, done: map[string][]*Obj{},
+		wide: map[string]int{field: n}}
+	g.d.Root = g.obj("Query", 4)
+	return g.d
 }
 
 // GenData draws a data tree for the schema: every object has a result for every field (and for every
@@ -96,6 +106,15 @@ func (g *dataGen) obj(typ string, depth int) *Obj {
 			if !f.Struct && g.pFail > 0 && g.r.Chance(g.pFail) {
 				kind := []string{"err", "err", "safe", "wrapped", "panic", "wrapsafe", "custom"}[g.r.Intn(7)]
 				o.Res[k] = &Outcome{Fail: kind, Msg: fmt.Sprintf("E%d.%s", o.ID, k)}
+				continue
+			}
+			if n, ok := g.wide[typ+"."+f.Name]; ok && f.Ret.K == "list" {
+				v := &Val{K: "list", L: []*Val{}}
+				for i := 0; i < n; i++ {
+					g.budget = 3 // every element gets a small subtree of its own
+					v.L = append(v.L, g.val(*f.Ret.Elem, 3, false))
+				}
+				o.Res[k] = &Outcome{Val: v}
 				continue
 			}
 			o.Res[k] = &Outcome{Val: g.val(f.Ret, depth-1, f.Key)}
